@@ -1,16 +1,61 @@
 """Configuration of the C17 check (loaded by tools/props.py)."""
+_PRIM = ['float', 'add', 'sub', 'mul', 'div', 'ltb', 'leb', 'eqb']
 CFG = {
     'harness': 'phys',
     'model': 'c17',
     'ocaml_pkgs': 'zarith,coq-core.kernel',
     'ocaml_flags': '-rectypes -thread',
-    # kernel primitives of PrimFloat as `Print Assumptions` lists them for the one binary64 witness theorem
-    # (C17_length_all_inputs_refuted, evaluated by vm_compute); they are primitive operations, not logical axioms
-    'axioms': ['float', 'add', 'sub', 'mul', 'div', 'ltb', 'leb', 'eqb'],
+    # Kernel primitives of PrimFloat, as `Print Assumptions` lists them for the one binary64 witness theorem
+    # (C17_length_all_inputs_refuted, a closed term evaluated by vm_compute).  They are primitive operations
+    # of the Coq kernel, not logical axioms; every other theorem is `Closed under the global context`.
+    'axioms': _PRIM + ['PrimFloat.' + p for p in _PRIM],
     'uses_gen': False,
-    'rule': 'TODO',
-    'trusted': [],
-    'level_text': 'TODO',
-    'level_note': 'TODO',
-    'note': 'TODO',
+    'rule': 'differential, bit for bit (16-hex-digit patterns, NaN payload ignored): per case line one waveform and one '
+            'response; the REAL nn_greedy_deconvolution for every (offset, look_ahead) of a grid (wire grid 0..=1 x 3..=12 '
+            'or pad grid 3..=5 x 7..=12, each response also on the other grid; pad response at offset 0 trips the assert), '
+            'ls_deconvolution over the grid, and the production entry point (pad_deconvolution; wire_range_deconvolution of '
+            'a single-wire block). Waveforms of 0..=700 samples: sums of 0..=8 response-shaped pulses, amplitudes 1..1e4, '
+            'arbitrary positions with a third in the last 20 samples, noise of 6 magnitudes, integer-rounded or not; '
+            'lengths 0..=20 around offset+look_ahead; all-positive, all-negative, zeros, signed zeros, subnormal/tiny, huge '
+            '(squares overflow), NaN/inf, random bit patterns; other responses (length 0..=30, non-negative/NaN entries) and '
+            'grids (look_ahead 0, slices out of range, empty ranges). rel17* lines, implementation only: outputs finite, '
+            '>= 0, right length and entry point = ls over the documented grid; exact 2^k scaling, k in -20..=20; equality '
+            'with a plain one-sample-at-a-time re-statement; isolated pulse recovery within 1e-6 through the wire path at '
+            'ring positions; multi-wire blocks of lengths 1..=256 across the seam with differing per-wire lengths: channel '
+            'count/order, output length = longest signal, finite, >= 0; table facts (response windows negative). '
+            'non-trivial = the sweep loop is entered and nothing panics; distinct = distinct case lines',
+    'trusted': [
+        'hand-written Gallina model of nn_greedy_deconvolution / ls_deconvolution (zipper over the residual instead of an '
+        'index; slice-exists <-> loop condition proved: slice_some_iff), tied to physics/src/deconvolution.rs by the '
+        'differential run, not by translation',
+        'PrimFloat evaluated natively (ExtrOCamlFloats -> coq-core Float64 = OCaml double arithmetic, SSE2); f64::min modelled '
+        'as "ignore a NaN operand, else the smaller, first operand on ties" (the +0/-0 tie cannot arise: quotients are '
+        'never -0); Iterator::sum::<f64>() starts from -0.0 (rustc 1.95; measured, observable only on the empty waveform); '
+        'powi(2) = x*x; no FMA contraction',
+        'binned responses are taken from the hooks verif::wire_response()/pad_response() (binning and JSON parsing are not '
+        'modelled); Cholesky step of the wire path only exercised (identity for single-wire blocks: measured bit for bit)',
+        'IEEE laws assumed, not discharged in Coq, when reading C17_greedy_nonneg / C17_scale_covariant for binary64: sign '
+        'rule of division, min of non-negatives, exactness of scaling by 2^k absent overflow/underflow',
+    ],
+    'level_text': 'Coq theorems over one generic model (any sample type F and operations; instantiated with PrimFloat for '
+                  'the bit-exact differential and with exact rationals Qc to show every hypothesis set satisfiable): '
+                  '(1) the window skip `i += last_positive + 1` equals the plain one-sample sweep - input vector, residual '
+                  'and panics - for every F, signal, response, offset, look-ahead, no size bound; (2) hence the '
+                  'least-squares selection equals the plain scheme bit for bit incl. the first-strict-minimum tie-break; '
+                  '(3) never out of fuel, output length = input length for every sweep, all-zero for too-short waveforms, '
+                  'and the selection returns the input length iff some residual is < +inf, else the EMPTY vector '
+                  '(binary64 witness: one sample -2^700); (4) every output is ge0 from three sign laws; (5) exact scale '
+                  'covariance incl. all control decisions from op-level laws; (6) an isolated pulse a*R at k is recovered '
+                  'as exactly a at k, 0 elsewhere, residual 0, by the offset-0 sweep and by the whole wire selection '
+                  '(over Q: any response with 13 negative leading samples).',
+    'level_note': 'NOT proved: finiteness of the outputs for all f64 inputs and the 1e-6 recovery figure in binary64 (residual '
+                  'growth in the response tail has no useful a-priori bound) - both are measured by the harness on every run '
+                  '(rel17prop, rel17pulse). (4) and (5) are proved from arithmetic laws stated as Section hypotheses; they '
+                  'are proved satisfiable over Qc, and for binary64 they are assumed IEEE laws (sign of a quotient of '
+                  'negatives; scaling by 2^k exact absent overflow/underflow), with rel17scale measuring exactness per run. '
+                  'Multi-wire blocks (Cholesky of the cross-talk matrix) are outside the model; shape, finiteness and sign '
+                  'are measured (rel17block). trusted: Coq kernel incl. primitive floats; hand model tied by differential '
+                  'run; extraction (ExtrOcamlBasic, ExtrOCamlFloats); harness and driver',
+    'note': 'a difference between model and implementation is a waveform on which the production loop departs from the '
+            'proved-equivalent plain greedy scheme (or a change of grid constants / response tables / float semantics)',
 }
